@@ -259,6 +259,9 @@ def marshalling_python(ctx, rid, fn):
 
 def rules(ctx):
     P, R = ctx.prog, ctx.res
+    ctx.rule('R11.12', "no function writes module-level state (memo / registry): results independent of earlier calls", floor=1)
+    from .C14 import no_module_state as _nms
+    _nms(ctx, 'R11.12')
     from .C14 import derived_fields
     ctx.rule('R11.10', "a field of model objects outside the frozen bookkeeping fields that is written together with the terms / a bookkeeping field is written by every other mutator of that state (no stale memo)", floor=1)
     derived_fields(ctx, 'R11.10')
